@@ -19,6 +19,7 @@ prop(
         "(== vs reference equality, hash, relative_to, is_parent_of), parent chains, and join with arguments of up to 600 octets (Miri: one family of three members per shard at text lengths 16 / 64 / 65). "
         "distinct_nontrivial = accepted URIs of the enumeration + related pairs (equal, relative_to is Some, or parent-of), each counted by exactly one shard, "
         "+ shape classes of the random parts; rejected strings count as evaluations only."
+        " Every other way a text becomes a URI value is given the same texts (all family / dictionary / size-family texts, a quarter of the enumerated ones): from_str, from_string, from_bytes, TryFrom<String>, Deserialize over the harness token format with borrowed / transient / owned strings and over serde_json::Value; whatever any of them accepts must satisfy the value and re-parse laws and equal what from_slice made; the serde form of an accepted URI (human-readable and compact) must read back over every transport. Path segments and module names are drawn one time in four from a dictionary of structured shapes (percent-encoded dots / slashes / NUL, dot runs, hidden files, single punctuation characters, bracket-like forms), authorities one time in five from a dictionary of ports, user info, bracketed IP literals and forbidden characters in plausible positions. equal-implies-equal-hash is judged under SipHash and under a word-at-a-time hasher."
     ),
     assumptions=[
         "permitted characters are taken from the type documentation (no space, control, \" # < > ? [ \\ ] ^ ` { | }, no non-ASCII); acceptance of a string is never demanded, only the laws on what is accepted",
